@@ -1,7 +1,7 @@
 """C05 - all evaluations and the result stay inside the box; refinement never worsens."""
 import numpy as np
 
-from vlib import scenario, record
+from vlib import ambient, scenario, record
 
 LEVEL = "exploration"
 RULE = ("seeded scenarios with emphasis on objectives whose unconstrained minimum lies outside or on the boundary of the box (linear, "
@@ -35,10 +35,14 @@ def cases(tier, seed):
             scn["pattern"] = pats[int(rng.integers(len(pats)))]
             scn["multi"] = True
         out.append(scn)
+    # workloads written by the repository's authors (shipped examples, solving tests) under the same oracle
+    out += ambient.ambient_cases(tier)
     return out
 
 
 def run_case(scn):
+    if "ambient" in scn:
+        return ambient.run_ambient_case(scn, "C05")
     stepviol = []
     stepobs = {"refinement_steps": 0}
     holder = {}
